@@ -359,7 +359,9 @@ class ExprGen:
                 c["reuse_nid"] = n["nid"]
                 self.reused_in_op |= self._nids(n)
                 self.deep_ext = deep_ext
-                if deep_ext or ch.chance("e.extend_kept_object", 1, 2):
+                # (a tree that holds one object at two positions is not extended: the addition would show at both)
+                has_sid = n.get("sid") is not None or any(y.get("sid") is not None for y in self._descendants(n))
+                if not has_sid and (deep_ext or ch.chance("e.extend_kept_object", 1, 2)):
                     # the caller adds one more sub-field to the kept object (or to one below it) before using it here.  The
                     # object is changed for good, so it - and every tree holding it - is not used again afterwards
                     self.no_reuse = True
@@ -729,6 +731,7 @@ def run_case(case, ch: Choices) -> RunResult:
     schema = build_schema(worlds.sdl_of(world))
     base = genrun.scratch_dir("verif-c14-")
     aliases: List[str] = []
+    log_restore: List[Any] = []
     try:
         root = os.path.join(base, "p")
         # the builder is generated from the schema object, however that was obtained: a third of the worlds reach the
@@ -784,18 +787,30 @@ def run_case(case, ch: Choices) -> RunResult:
                 return cls(url="http://gql.test/graphql", http_client=httpx.AsyncClient(transport=AsyncSimTransport(srv)))
             return cls(url="http://gql.test/graphql", http_client=httpx.Client(transport=SyncSimTransport(srv)))
 
-        def send(client, op, pkg, prebuilt=None):
+        partner_cap: List[Any] = [None]
+
+        def send(client, op, pkg, prebuilt=None, partner=None):
             shared_objs: dict = {"__pool__": live_pool} if pkg is live else {}
             fields = prebuilt if prebuilt is not None else \
                 [interpret(e, pkg, schema, snake, root_kind=op["kind"], shared=shared_objs) for e in op["fields"]]   # harness + builder API
             last_built[0] = fields
             n0 = len(captured)
             meth = getattr(client, op["kind"])
+            partner_cap[0] = None
             try:
                 if is_async:
                     loop = asyncio.new_event_loop()
                     try:
-                        loop.run_until_complete(meth(*fields, operation_name=op["name"]))
+                        if partner is not None:
+                            # two operations in flight on one event loop, holding the same built objects at other positions
+                            pop_, pfields = partner
+
+                            async def both():
+                                return await asyncio.gather(meth(*fields, operation_name=op["name"]),
+                                                            getattr(client, pop_["kind"])(*pfields, operation_name=pop_["name"]))
+                            loop.run_until_complete(both())
+                        else:
+                            loop.run_until_complete(meth(*fields, operation_name=op["name"]))
                     finally:
                         loop.close()
                 else:
@@ -803,11 +818,27 @@ def run_case(case, ch: Choices) -> RunResult:
             except Exception as e:  # noqa: the code under test
                 return None, e
             caps = captured[n0:]
+            if partner is not None:
+                mine = [c_ for c_ in caps if b'"operationName": "%s"' % op["name"].encode() in (c_.body if isinstance(c_.body, bytes) else c_.body.encode())]
+                theirs = [c_ for c_ in caps if c_ not in mine]
+                partner_cap[0] = theirs[-1] if theirs else None
+                return (mine[-1] if mine else None), None
             return (caps[-1] if caps else None), None
 
         live_pool: Dict[int, Any] = {}
         last_built: List[Any] = [None]
         built_ops: List[Tuple[dict, list]] = []     # (expression, the live top-level objects built for it)
+        if ch.chance("env.debug_logging", 1, 4):
+            # the application runs with DEBUG logging and a handler that formats every record (lazy %s arguments get str()-ed)
+            import io as _io
+            import logging as _logging
+            _h = _logging.StreamHandler(_io.StringIO())
+            _h.setLevel(_logging.DEBUG)
+            _root = _logging.getLogger()
+            log_restore.append((_root, _h, _root.level))
+            _root.addHandler(_h)
+            _root.setLevel(_logging.DEBUG)
+            res.bump("env.debug_logging_with_formatting_handler")
         shared_uses: Dict[Tuple[str, str], int] = {}
         alias_seen = None        # (the expression generator's record, see below)
         eg = ExprGen(ch, schema, snake)
@@ -819,6 +850,7 @@ def run_case(case, ch: Choices) -> RunResult:
         sent_docs = []
         for i in range(nops):
             prebuilt = None
+            partner = None
             reusable = built_ops if eg.free_shared_unions else \
                 [bo for bo in built_ops if not any(e["how"] == "uattr" for e in _all_nodes(bo[0]))]
             # (trees holding an object that was extended afterwards are not sent again: they show the extension, D-free but
@@ -838,6 +870,11 @@ def run_case(case, ch: Choices) -> RunResult:
                 op = dict(src_op, fields=[src_op["fields"][k] for k in idxs], name=ch.pick("o.name2", ["Again", src_op["name"]]))
                 prebuilt = [objs[k] for k in idxs]
                 res.bump("history.same_objects_resent")
+                partner = None
+                if is_async and ch.chance("h.concurrent_partner", 1, 2):
+                    op = dict(op, name="Again")
+                    partner = (dict(src_op, name="Partner"), list(objs))
+                    res.bump("history.two_operations_in_flight_sharing_objects")
             elif resendable and ch.chance("h.resend", 1, 6):
                 op = resendable[ch.draw("h.which", len(resendable))]       # re-send a previously built tree (rebuilt from the same data)
                 res.bump("history.resend")
@@ -846,7 +883,7 @@ def run_case(case, ch: Choices) -> RunResult:
                 if op is None:
                     continue
             try:
-                cap, exc = send(client, op, live, prebuilt)
+                cap, exc = send(client, op, live, prebuilt, partner)
                 if prebuilt is None and last_built[0]:
                     built_ops.append((op, last_built[0]))
             except Unresolvable as u:
@@ -863,7 +900,7 @@ def run_case(case, ch: Choices) -> RunResult:
             # D25: .on() on a class-level union attribute changes the one shared object.  An operation is affected when such
             # an attribute was already used earlier in the history, or sits at two positions of this operation
             occ: Dict[Tuple[str, str], int] = {}
-            for e_ in _all_nodes(op):
+            for e_ in _all_nodes(op) + (_all_nodes(partner[0]) if partner is not None else []):     # (incl. the operation sent alongside)
                 if e_["how"] == "uattr":
                     occ[(e_["parent"], e_["gql"])] = occ.get((e_["parent"], e_["gql"]), 0) + 1
             tainted = eg.free_shared_unions and any(shared_uses.get(k_, 0) > 0 or n_ > 1 for k_, n_ in occ.items())
@@ -895,6 +932,16 @@ def run_case(case, ch: Choices) -> RunResult:
             trace.append("op#%d expr=%s" % (len(history) - 1, json.dumps(op)[:1200]))
             trace.append("      sent query=%r variables=%s" % (q, json.dumps(vs)[:400]))
             check_document(op, q if isinstance(q, str) else "", vs, on, schema, live, V, eg.alias_seen)
+            if partner is not None:
+                pc = partner_cap[0]
+                if pc is None:
+                    V("nothing-sent", "the operation sent concurrently (Partner) produced no request")
+                else:
+                    try:
+                        pb = json.loads(pc.body)
+                        check_document(partner[0], pb.get("query") or "", pb.get("variables"), pb.get("operationName"), schema, live, V, eg.alias_seen)
+                    except ValueError:
+                        V("request-body", "the concurrent operation's request body is not JSON")
             eg.remember_sent(op)
             if any(e.get("reuse_nid") is not None for e in _all_nodes(op)):
                 res.bump("probe.subobject_of_earlier_operation_reused")
@@ -946,6 +993,9 @@ def run_case(case, ch: Choices) -> RunResult:
         res.digest = hashlib.sha256(repr((res.sig, sent_docs, [v.cls for v in res.violations])).encode()).hexdigest()
         return res
     finally:
+        for _root, _h, _lvl in log_restore:
+            _root.removeHandler(_h)
+            _root.setLevel(_lvl)
         for a in aliases:
             unload(a)
         genrun.rmtree(base)
